@@ -1,19 +1,34 @@
 /- GENERATED: instance obligations for one logic, discharged by kernel evaluation.
-   `X ⊆ known`: every failing row is a committed known finding (Ptx/Gen/Known.lean). -/
+   `S` = the logic with its DOCUMENTED tables (Ptx/Sem/Spec.lean); rules, closure, trunk and frames
+   are what the translator read off the code.  `X ⊆ known`: every failing row is a committed
+   known finding (Ptx/Gen/Known.lean, generated from known_findings.json). -/
 import Ptx.Gen.L_MH
 import Ptx.Gen.Known
 import Ptx.Sem.Subset
+import Ptx.Props.C01
 namespace Ptx.Gen.Obl.MH
 open Ptx
 
-theorem tables_total : Gen.MH.tablesTotalB = true := by decide +kernel
-theorem rules_exact : subsetB Gen.MH.badRules (Known.badRules "MH") = true := by decide +kernel
-theorem rules_sound : subsetB Gen.MH.unsoundRules (Known.unsoundRules "MH") = true := by decide +kernel
-theorem rules_total : subsetB Gen.MH.missingRules (Known.missingRules "MH") = true := by decide +kernel
-theorem rules_local : Gen.MH.nonLocalRules = [] := by decide +kernel
-theorem closure_total : Gen.MH.closureTotalB = true := by decide +kernel
-theorem closure_exact : subsetB Gen.MH.badClosure (Known.badClosure "MH") = true := by decide +kernel
-theorem read_total : Gen.MH.readTotalB = true := by decide +kernel
-theorem read_exact : subsetB Gen.MH.badRead (Known.badRead "MH") = true := by decide +kernel
+/-- a modal / first-order extension has exactly the truth-functional tables of its base (MH) -/
+theorem base_tables : Gen.MH.tables.sameTF Gen.MH.tables = true := by decide +kernel
+theorem spec_defined : Gen.MH.specDefinedB = true := by decide +kernel
+theorem tables_spec : subsetB Gen.MH.tableDiff (Known.tableDiff "MH") = true := by decide +kernel
+theorem defined_ops : Gen.MH.tables.definedOpsBad = [] := by decide +kernel
+theorem tables_total : Gen.MH.sem.tablesTotalB = true := by decide +kernel
+theorem rules_exact : subsetB Gen.MH.sem.badRules (Known.badRules "MH") = true := by decide +kernel
+theorem rules_sound : subsetB Gen.MH.sem.unsoundRules (Known.unsoundRules "MH") = true := by decide +kernel
+theorem rules_total : subsetB Gen.MH.sem.missingRules (Known.missingRules "MH") = true := by decide +kernel
+theorem rules_local : Gen.MH.sem.nonLocalRules = [] := by decide +kernel
+theorem closure_total : Gen.MH.sem.closureTotalB = true := by decide +kernel
+theorem closure_exact : subsetB Gen.MH.sem.badClosure (Known.badClosure "MH") = true := by decide +kernel
+theorem read_total : Gen.MH.sem.readTotalB = true := by decide +kernel
+theorem read_exact : subsetB Gen.MH.sem.badRead (Known.badRead "MH") = true := by decide +kernel
+theorem sound_core : Gen.MH.sem.soundCoreB = true := by decide +kernel
+
+/-- C01 for this logic: a closed tableau reached by any legal derivation has no countermodel. -/
+theorem c01_valid_sound (arg : Argument) (t : Tableau)
+    (hd : Deriv Gen.MH.sem.soundPart.noQuantPart (trunk Gen.MH.sem arg) t) (hclosed : t.allClosed = true)
+    (M : Struct) (hM : M.Interp Gen.MH.sem) (e : Env M.D) (w0 : M.W) : ¬ Countermodel Gen.MH.sem M e w0 arg :=
+  Props.C01.C01_valid_sound_partial Gen.MH.sem sound_core arg t hd hclosed M hM e w0
 
 end Ptx.Gen.Obl.MH
